@@ -73,7 +73,8 @@ def run(ctx):
     # --- oracle: real clean build -----------------------------------------------------------------
     n_oracle = n_fail = 0
     for r in recs:
-        which = "all" if (r["diffs"] or not quick) else "last"
+        deep = set(r["hist"].get("tags", [])) & {"dirs", "swap", "shared", "tamper"}
+        which = "all" if (r["diffs"] or not quick or deep) else "last"
         fails, n = H.clean_oracle(ctx, r["hist"], r["real"], "c01clean", which=which)
         n_oracle += n
         if fails:
